@@ -79,11 +79,16 @@ pub struct Outcome {
     pub states: BTreeSet<u64>,
     pub sample: Option<Value>,
     pub harness_errors: Vec<String>,
+    /// named sets of values covered (e.g. leap-status values classified, generation start values)
+    pub sets: BTreeMap<&'static str, BTreeSet<u64>>,
 }
 
 impl Outcome {
     pub fn probe(&mut self, name: &str) {
         *self.probes.entry(name.to_string()).or_insert(0) += 1;
+    }
+    pub fn cover(&mut self, set: &'static str, v: u64) {
+        self.sets.entry(set).or_default().insert(v);
     }
     pub fn probe_n(&mut self, name: &str, n: u64) {
         *self.probes.entry(name.to_string()).or_insert(0) += n;
